@@ -25,7 +25,7 @@ META = {
     "design_ref": "DESIGN.md §4.2 C12",
     "technique": "TLA+ registry state machine over a TLA+-generated value universe with structural observable equality; "
                  "TLC enumerates the universe and validates the observations recorded from dask.tokenize",
-    "level_text": "TLC generates ~1.9k (quick) / ~6k (thorough) abstract values: scalars, containers to depth 2 (dict keys / set "
+    "level_text": "TLC generates ~1.9k (quick) / ~5.1k (thorough) abstract values: scalars, containers to depth 2 (dict keys / set "
                   "members that collide under str), self-referential containers, ndarrays [dtype, shape, layout in C/F/step-2/"
                   "negative-stride/broadcast/non-contiguous view, cells] whose memory images coincide, memmaps, object arrays "
                   "whose '-'-joins coincide, pandas Index/RangeIndex/MultiIndex/Categorical/extension arrays/Series/DataFrame "
@@ -46,12 +46,61 @@ ALLFAMS = ["scalars", "seqs1", "sets1", "dicts1", "seqs2", "dicts2", "recs", "nd
 
 
 # ---------------------------------------------------------------- universe
-def enumerate_universe(ctx, big, fams, label):
+def universe_job(ctx, big, fams, label):
+    """-> callable running TLC (the model files are written here, in the calling thread)."""
     consts = {"Big": bool(big), "Fams": TLA("{%s}" % ", ".join('"%s"' % f for f in fams)),
               "NDet": 0, "NTok": 0, "NProc": 0, "MaxLen": 0}
     spec, cfg = ctx.model(ctx.spec("graph", "TokensMC.tla"), consts, init="UInit", next_="UNext",
                           invariants=["EqvReflexive", "EqvOK", "SigRespected", "HasTwins"])
-    cases, _ = ctx.tlc_cases(spec, cfg, label=label, timeout=3000)
+
+    def go():
+        cases, _ = ctx.tlc_cases(spec, cfg, label=label, timeout=3000)
+        cases.sort(key=lambda c: json.dumps(c["v"], sort_keys=True))
+        return cases
+    return go
+
+
+def enumerate_universe(ctx, big, fams, label):
+    return universe_job(ctx, big, fams, label)()
+
+
+# kinds never span two groups, so the class representatives chosen in separate TLC runs are consistent
+GROUPS = [["scalars", "seqs1", "seqs2", "recs", "dcs", "pars", "fns"],
+          ["sets1", "dicts1", "dicts2", "oas", "mms", "eas", "mis", "cats"],
+          ["nds", "indexes", "series", "dfs"]]
+
+
+def in_parallel(jobs):
+    """Run blocking callables (TLC subprocesses) side by side; every thread has ended before this returns,
+    so later forks start from a single-threaded process."""
+    import threading
+    out, err = [None] * len(jobs), [None] * len(jobs)
+
+    def work(i):
+        try:
+            out[i] = jobs[i]()
+        except BaseException as ex:  # noqa: BLE001 - re-raised in the caller
+            err[i] = ex
+    ths = [threading.Thread(target=work, args=(i,)) for i in range(len(jobs))]
+    for t in ths:
+        t.start()
+    for t in ths:
+        t.join()
+    for e in err:
+        if e is not None:
+            raise e
+    return out
+
+
+def enumerate_parallel(ctx, big, extra_jobs=()):
+    jobs = [universe_job(ctx, big, g, "design(Eqv)+universe:%d" % i) for i, g in enumerate(GROUPS)]
+    res = in_parallel(jobs + list(extra_jobs))
+    cases, kinds_seen = [], {}
+    for i, part in enumerate(res[:len(GROUPS)]):
+        for c in part:
+            if kinds_seen.setdefault(c["v"]["k"], i) != i:
+                raise MachineryError("kind %s is generated by two family groups" % c["v"]["k"])
+        cases += part
     cases.sort(key=lambda c: json.dumps(c["v"], sort_keys=True))
     return cases
 
@@ -218,14 +267,21 @@ def _join(xs):
     return "-".join(x.get("s", "?") for x in xs)
 
 
-def _strs_of(d):
-    if d["k"] == "df":
-        return [s for c in d["cols"] for s in c.get("strs", [])]
-    if d["k"] == "cat":
-        return list(d["cats"])
-    if d["k"] == "ser" and "strs" not in d:
-        return d["ix"].get("strs")
-    return d.get("strs")
+def _all_strs(d):
+    """Every sequence of strings inside a pandas record (values, categories, index, columns), in a fixed order."""
+    out = []
+    if isinstance(d, dict):
+        if d.get("k") == "cat":                      # the values of a Categorical are codes into cats
+            return [list(d["cats"])]
+        for f in sorted(d):
+            if f in ("strs", "cats") and d.get("k") != "mi":
+                out.append(list(d[f]))
+            elif f in ("ix", "cols"):
+                out += _all_strs(d[f])
+    elif isinstance(d, list):
+        for x in d:
+            out += _all_strs(x)
+    return out
 
 
 def classify_pair(a, b):
@@ -247,8 +303,8 @@ def classify_pair(a, b):
             return "Distinct:object-strings:equal-join"
         return "Distinct:oa:other"
     if k in ("ix", "ser", "ea", "df", "cat"):
-        sa, sb = _strs_of(a), _strs_of(b)
-        if sa and sb and sa != sb and "-".join(sa) == "-".join(sb):
+        sa, sb = _all_strs(a), _all_strs(b)
+        if sa != sb and len(sa) == len(sb) and ["-".join(x) for x in sa] == ["-".join(x) for x in sb]:
             return "Distinct:object-strings:equal-join"       # the same call site as for bare object arrays
         if k == "df" and [c["nm"] for c in a["cols"]] == [c["nm"] for c in b["cols"]] and a["ix"] == b["ix"]:
             key = lambda c: json.dumps({f: v for f, v in c.items() if f != "nm"}, sort_keys=True)
@@ -290,10 +346,11 @@ def classify_det(clause, first, this):
         raise MachineryError("determinism compared two different classes: %r %r" % (first, this))
     site = _order_site(first, this)
     pre = "DetAcrossInterpreters" if clause == "DetAcrossInterpreters" else "Det"
-    if site:
+    if site and site not in ("frozenset", "set"):
         return "%s:%s:construction-order" % (pre, site)
-    if k in ("set", "frozenset") or (k in ("list", "tuple", "dict") and _has_kind(this, ("set", "frozenset"))):
-        return "%s:%s:iteration-order" % (pre, "frozenset" if _has_kind(this, ("frozenset",)) else "set")
+    if site in ("frozenset", "set") or k in ("set", "frozenset") or (k in ("list", "tuple", "dict") and _has_kind(this, ("set", "frozenset"))):
+        fz = site == "frozenset" or (site is None and _has_kind(this, ("frozenset",)))
+        return "%s:%s" % (pre, "frozenset:iteration-order" if fz else "set:order-of-str-ties")
     if k == "nd":
         return "%s:nd:%s:%s" % (pre, this["lay"], clause.replace("Det_", ""))
     if k == "df":
@@ -369,16 +426,17 @@ def check(ctx, cases, procs=(0, 1, 2), mutant=None, guard=True, count=True):
     return events, rejects, len(ctx.violations) + sum(ctx.known_hit.values()) - before
 
 
-def design_check(ctx):
-    consts = {"Big": False, "Fams": TLA('{"fns"}'), "NDet": 3, "NTok": 2, "NProc": 2, "MaxLen": ctx.pick(3, 4)}
+def design_job(ctx):
+    consts = {"Big": False, "Fams": TLA("{}"), "NDet": 3, "NTok": 2, "NProc": 2, "MaxLen": ctx.pick(3, 4)}
     spec, cfg = ctx.model(ctx.spec("graph", "TokensMC.tla"), consts, init="RInit", next_="RNext",
                           invariants=["RejectionIsConflict", "ConflictIsRejected", "RegistryCoversSeen"])
-    ctx.tlc(spec, cfg, label="design: registry vs global definition", timeout=1800)
+    return lambda: ctx.tlc(spec, cfg, label="design: registry vs global definition", timeout=1800)
 
 
 def run(ctx):
-    design_check(ctx)
-    cases = enumerate_universe(ctx, not ctx.quick, ALLFAMS, "design(Eqv)+universe")
+    if sorted(f for g in GROUPS for f in g) != sorted(ALLFAMS):
+        raise MachineryError("family groups do not cover the universe")
+    cases = enumerate_parallel(ctx, not ctx.quick, [design_job(ctx)])
     ncls, ndet = intern_classes(cases)
     run_guards(ctx, cases, ctx.rng, ctx.pick(1500, 6000))
     events, rejects, _ = check(ctx, cases)
@@ -484,8 +542,7 @@ def selftest(ctx):
     ok = True
     cases = enumerate_universe(ctx, False, ["scalars", "seqs1", "dicts1", "nds", "series", "pars"], "selftest universe")
     intern_classes(cases)
-    # keep the slice small: every 3rd value of the big families, all of the rest
-    keep = [c for i, c in enumerate(cases) if c["v"]["k"] in ("int", "str", "list", "tuple", "dict") or i % 3 == 0]
+    keep = cases
     items = [(c["v"], c["hows"]) for c in keep]
     os.environ["VERIF_TOK_TMP"] = os.path.join(ctx.scratch, "mm0")
     os.makedirs(os.environ["VERIF_TOK_TMP"], exist_ok=True)
@@ -524,14 +581,17 @@ def selftest(ctx):
         want = MUTANTS[nm][1]
         new = sorted(s for s in sigs - known_baseline)
         hit = any(s.startswith(want) for s in new)
-        print("mutant %s: %s (new signatures: %s)" % (nm, "DETECTED" if hit else "MISSED", new[:4]))
+        print("mutant %s: %s (expected %s*; new signatures: %s)" % (nm, "DETECTED" if hit else "MISSED", want, new[:4]))
         ok &= hit
     # (ii) a corrupted recorded field is rejected, the untouched record accepted
     tag0 = [t for t, n in tagof.items() if n is None][0]
     ev0 = [dict(e) for e in infos[tag0][0] if e["proc"] == 0 and e["id"] not in rejects][:60]
-    good = ctx.tlc_validate(spec, ev0, cfg)
-    ev0[-1]["tok"] = ev0[0]["tok"]
-    bad = ctx.tlc_validate(spec, ev0, cfg)
+    evg = [dict(e, id="g" + e["id"], det=e["det"] + 400000, cls=e["cls"] + 400000, tok=e["tok"] + 400000) for e in ev0]
+    evb = [dict(e, id="b" + e["id"], det=e["det"] + 800000, cls=e["cls"] + 800000, tok=e["tok"] + 800000) for e in ev0]
+    evb[-1]["tok"] = evb[0]["tok"]
+    both = ctx.tlc_validate(spec, evg + evb, cfg)            # disjoint id spaces: one TLC run decides both copies
+    good = [k for k in both if k.startswith("g")]
+    bad = [k for k in both if k.startswith("b")]
     print("untouched observations: %s; observation with a corrupted token field: %s"
           % ("accepted" if not good else "REJECTED", "REJECTED" if bad else "accepted"))
     ok &= (not good) and bool(bad)
@@ -546,4 +606,6 @@ class _Collect:
 
     def violation(self, sig, what, rep=None):
         self.sigs.append(sig)
+        if os.environ.get("VERIF_DEBUG") and "same-layout" in sig:
+            print(sig, what)
         return True
